@@ -21,8 +21,13 @@
                      (parse_execute_update: the code before 7ef8d1a, params.update(opt_vals));  main_run: DoitMain.run;
      written o l v   v is the value the assignments l give option o: True/False of its last flag, or its last
                      string converted (Proofs/CmdParseS.v).
-   Not covered by the theorems (correspondence check only): abbreviated long options (unique prefixes). *)
-From DoitV Require Import Base CmdParse CmdParseP CmdParseR CmdParseS.
+     aitem, arender  (Proofs/CmdParseA.v) units written with an ABBREVIATED long / inverse name: ALongVal o p true v =
+                     --p=VALUE, ALongVal o p false v = --p VALUE, ALongFlag o p = --p, AInv o p = --p (p abbreviating
+                     the inverse name), APlain it = a unit of `item`;  full a = the unit it stands for;
+     abbrev_ok st p nm   boolean: p is a prefix of nm, and p IS nm or nm is the only long / inverse name of the spec
+                     that starts with p (getopt.long_has_args: exact match first, else unique prefix);
+     ambiguous st p  boolean: at least two long / inverse names of the spec start with p and none of them is p. *)
+From DoitV Require Import Base CmdParse CmdParseP CmdParseR CmdParseS CmdParseA.
 Open Scope string_scope.
 Open Scope list_scope.
 
@@ -70,6 +75,161 @@ Proof.
   exact (conj H1 (conj H2 (parsed_values conv st env items t pos d args st' WF Hok Ht H))).
 Qed.
 Print Assumptions C16_roundtrip_values.
+
+(* ---------------------------------------------------------------- abbreviated long options *)
+(* getopt.long_has_args on the table built from the spec: a prefix allowed by abbrev_ok resolves to the
+   option it abbreviates (with / without argument as the option requires; the name handed on is the FULL
+   name), a prefix of two names or more that is none of them is "not a unique prefix" (GetoptError) *)
+Theorem C16_abbrev_resolution : forall st p, wf_spec st = true ->
+  (forall o, In o st -> is_bool (o_ty o) = false -> o_long o <> EmptyString -> abbrev_ok st p (o_long o) = true ->
+             long_has_args p (get_long st) = Some (true, o_long o)) /\
+  (forall o, In o st -> is_bool (o_ty o) = true -> o_long o <> EmptyString -> abbrev_ok st p (o_long o) = true ->
+             long_has_args p (get_long st) = Some (false, o_long o)) /\
+  (forall o, In o st -> o_inverse o <> EmptyString -> abbrev_ok st p (o_inverse o) = true ->
+             long_has_args p (get_long st) = Some (false, o_inverse o)) /\
+  (ambiguous st p = true -> long_has_args p (get_long st) = None).
+Proof.
+  intros st p WF.
+  exact (conj (fun o => long_has_args_value_abbrev st WF o p) (conj (fun o => long_has_args_flag_abbrev st WF o p)
+        (conj (fun o => long_has_args_inverse_abbrev st WF o p) (long_has_args_ambiguous_spec st WF p)))).
+Qed.
+Print Assumptions C16_abbrev_resolution.
+
+(* parsing does not see an allowed abbreviation: whatever follows the abbreviated units (well-formed or
+   not), parse / parse_only (pass 1) / parse_execute (pass 2) return what they return for the same units
+   written with the full names -- so every theorem of this file about `render items` holds for
+   `arender l` with items := map full l *)
+Theorem C16_abbrev_transparent : forall conv st env ov d l tail,
+  wf_spec st = true -> Forall (aitem_ok st) l ->
+  parse conv st env (arender l ++ tail) = parse conv st env (render (map full l) ++ tail) /\
+  parse_only conv st d (arender l ++ tail) = parse_only conv st d (render (map full l) ++ tail) /\
+  parse_execute conv st ov env (arender l ++ tail) = parse_execute conv st ov env (render (map full l) ++ tail).
+Proof.
+  intros conv st env ov d l tail WF Hok.
+  exact (conj (parse_arender_transparent conv st env l tail WF Hok) (conj (parse_only_arender_transparent conv st d l tail WF Hok)
+        (parse_execute_arender_transparent conv st ov env l tail WF Hok))).
+Qed.
+Print Assumptions C16_abbrev_transparent.
+
+(* the round trip for units rendered with ANY allowed abbreviation of the long / inverse names *)
+Theorem C16_roundtrip_abbrev : forall conv st env l t pos,
+  wf_spec st = true -> Forall (aitem_ok st) l -> tail_of t pos ->
+  parse conv st env (arender l ++ t) =
+  (match env_phase conv env st (defaults_phase st) with
+   | Ok d0 => lift_result (apply_asgs conv d0 (asgs_of (map full l))) pos
+   | ParseError => ParseError
+   | Crash => Crash
+   end, st).
+Proof. exact parse_arender. Qed.
+Print Assumptions C16_roundtrip_abbrev.
+
+(* ... the values returned are exactly the values written (C16_roundtrip_values, for abbreviated units) *)
+Theorem C16_roundtrip_abbrev_values : forall conv st env al t pos d args st',
+  wf_spec st = true -> Forall (aitem_ok st) al -> tail_of t pos ->
+  parse conv st env (arender al ++ t) = (Ok (d, args), st') ->
+  args = pos /\ st' = st /\
+  forall o, In o st ->
+  let k := o_name o in let l := asgs_of (map full al) in
+  exists before,
+    match env_str env o with Some s => str2type conv o (VStr s) = Ok before | None => before = o_default o end /\
+    match o_ty o with
+    | TBool => d_get d k = Some (match last_opt (flags_of k l) with Some b => VBool b | None => before end)
+    | TList => forall base, before = VList base -> d_get d k = Some (VList (base ++ vals_of k l))
+    | _ => match last_opt (vals_of k l) with
+           | Some v => exists x, str2type conv o (VStr v) = Ok x /\ d_get d k = Some x
+           | None => d_get d k = Some before
+           end
+    end /\
+    (assigned k l = false -> d_get d k = Some before) /\
+    mem k (d_nd d) = ((match env_str env o with Some _ => true | None => false end) || assigned k l)%bool.
+Proof.
+  intros conv st env al t pos d args st' WF Hok Ht H.
+  rewrite (parse_arender_transparent conv st env al t WF Hok) in H.
+  exact (C16_roundtrip_values conv st env (map full al) t pos d args st' WF (aitems_full_ok st al Hok) Ht H).
+Qed.
+Print Assumptions C16_roundtrip_abbrev_values.
+
+(* exact match beats prefix: a unit written with the FULL name is always allowed, also when the name is a
+   proper prefix of other long names of the spec (abbrev_ok st nm nm holds without looking at the spec) --
+   C16_roundtrip is the instance l := map exact items of C16_roundtrip_abbrev *)
+Theorem C16_abbrev_exact_beats_prefix : forall st,
+  (forall nm, abbrev_ok st nm nm = true) /\
+  (forall it, item_ok st it -> aitem_ok st (exact it)) /\
+  (forall items, arender (map exact items) = render items /\ map full (map exact items) = items).
+Proof.
+  intros st. split; [exact (abbrev_ok_exact st)|]. split; [exact (exact_ok st)|].
+  intros items. split; [exact (arender_exact items)|].
+  rewrite map_map. rewrite <- (map_id items) at 2. apply map_ext. exact full_exact.
+Qed.
+Print Assumptions C16_abbrev_exact_beats_prefix.
+
+(* an ambiguous prefix (--p or --p=VALUE), an abbreviated flag / inverse flag given a value, an abbreviated
+   option that needs a value at the end of the command line (inductive abad_token, CmdParseA.v), or any
+   token of bad_token, after any abbreviated units: parse error, whatever follows *)
+Theorem C16_reject_abbrev : forall conv st env l b rest,
+  wf_spec st = true -> Forall (aitem_ok st) l -> (abad_token st b rest \/ bad_token st b rest) ->
+  parse conv st env (arender l ++ b :: rest) =
+  (match env_phase conv env st (defaults_phase st) with Crash => Crash | _ => ParseError end, st).
+Proof. exact parse_abad_token. Qed.
+Print Assumptions C16_reject_abbrev.
+
+(* pass 1 of DoitMain.run on abbreviated options of the loader (C16_pre_parse) *)
+Theorem C16_pre_parse_abbrev : forall conv lst l t pos,
+  wf_spec lst = true -> Forall (aitem_ok lst) l -> tail_of t pos ->
+  pre_parse conv lst (arender l ++ t) =
+  match apply_asgs conv d_empty (asgs_of (map full l)) with
+  | Ok d => Ok (d_items d, pos)
+  | ParseError => Ok ([], arender l ++ t)
+  | Crash => Crash
+  end.
+Proof. exact pre_parse_arender. Qed.
+Print Assumptions C16_pre_parse_abbrev.
+
+(* non-vacuity: --fi is the flag `fi` although --file starts with it; --fil / --verb / --no are unique
+   prefixes; --f is ambiguous; `fi` is not an abbreviation of `file` *)
+Definition ab_fi : cmd_option := mkopt 1%N TBool (VBool false) "i" "fi" "no-fi" [] None.
+Definition ab_file : cmd_option := mkopt 2%N TStr (VStr "dodo.py") "f" "file" "" [] None.
+Definition ab_verb : cmd_option := mkopt 3%N (TOther 0) (VInt 1%Z) "v" "verbosity" "" [] None.
+Definition ab_spec : pstate := [ab_fi; ab_file; ab_verb].
+Definition ab_items : list aitem :=
+  [ALongFlag ab_fi "fi"; ALongVal ab_file "fil" true "x"; ALongVal ab_verb "verb" false "2"; AInv ab_fi "no"; ALongVal ab_verb "v" true "3"].
+Example C16_ex_abbrev_hyps :
+  wf_spec ab_spec = true /\ Forall (aitem_ok ab_spec) ab_items /\
+  arender ab_items = ["--fi"; "--fil=x"; "--verb"; "2"; "--no"; "--v=3"] /\
+  abbrev_ok ab_spec "fi" "file" = false /\ ambiguous ab_spec "f" = true /\ ambiguous ab_spec "fi" = false.
+Proof.
+  split; [vm_compute; reflexivity|]. split; [|vm_compute; repeat split; reflexivity].
+  repeat (apply Forall_cons); [..|apply Forall_nil]; unfold aitem_ok, full, item_ok.
+  - split; [split; [vm_compute; auto|split; [reflexivity|discriminate]]|split; [vm_compute; reflexivity|discriminate]].
+  - split; [split; [vm_compute; auto|split; [reflexivity|discriminate]]|split; [vm_compute; reflexivity|discriminate]].
+  - split; [split; [vm_compute; auto|split; [reflexivity|discriminate]]|split; [vm_compute; reflexivity|discriminate]].
+  - split; [split; [vm_compute; auto|discriminate]|split; [vm_compute; reflexivity|discriminate]].
+  - split; [split; [vm_compute; auto|split; [reflexivity|discriminate]]|split; [vm_compute; reflexivity|discriminate]].
+Qed.
+Example C16_ex_abbrev_parse :
+  exists d, parse conv_ref ab_spec (env_of []) (arender ab_items ++ ["t1"]) = (Ok (d, ["t1"]), ab_spec) /\
+            d_get d 1%N = Some (VBool false) /\ d_get d 2%N = Some (VStr "x") /\ d_get d 3%N = Some (VInt 3%Z).
+Proof. eexists. vm_compute. repeat split; reflexivity. Qed.
+(* the empty prefix: --=VALUE is accepted when the spec has one long name only *)
+Example C16_ex_abbrev_empty_prefix :
+  aitem_ok [ab_file] (ALongVal ab_file "" true "y") /\ arender [ALongVal ab_file "" true "y"] = ["--=y"] /\
+  exists d, parse conv_ref [ab_file] (env_of []) ["--=y"] = (Ok (d, []), [ab_file]) /\ d_get d 2%N = Some (VStr "y").
+Proof.
+  split; [split; [split; [vm_compute; auto|split; [reflexivity|discriminate]]|split; [vm_compute; reflexivity|discriminate]]|].
+  split; [reflexivity|]. eexists. vm_compute. split; reflexivity.
+Qed.
+Example C16_ex_abbrev_bad_tokens :
+  abad_token ab_spec "--f" ["t"] /\ abad_token ab_spec "--f=1" [] /\ abad_token ab_spec "--verb" [] /\
+  abad_token ab_spec "--no=1" ["t"] /\ abad_token ab_spec "--fi=1" [] /\
+  fst (parse conv_ref ab_spec (env_of []) ["--fil=x"; "--f"; "t"]) = ParseError.
+Proof.
+  repeat split.
+  - apply (abad_ambiguous ab_spec "f" ["t"]); [discriminate|reflexivity].
+  - apply (abad_ambiguous_val ab_spec "f" "1" []). reflexivity.
+  - apply (abad_missing ab_spec ab_verb "verb"); try reflexivity; try discriminate. vm_compute. auto.
+  - apply (abad_inverse_arg ab_spec ab_fi "no" "1" ["t"]); try reflexivity; try discriminate. vm_compute. auto.
+  - apply (abad_flag_arg ab_spec ab_fi "fi" "1" []); try reflexivity; try discriminate. vm_compute. auto.
+Qed.
 
 (* ---------------------------------------------------------------- rejection *)
 (* a token in option position that is an unknown short option, an unknown long option, an ambiguous
